@@ -37,9 +37,11 @@ PROPS["C08"] = _kv("C08", "Key search and sub-key filters are complete, exact an
     "Trusted: Coq kernel; hand-written model validated by correspondence; getSubKeyMap, hasSubKeys and Map.PathForKeyShortest additionally translated from the current source by go2v and proved equal to the model (GenProofs/PureG2.v; translator fragment and stdlib mapping in translator/pure.go); ParseFloat oracle; nested-list inconsistency is a recorded finding.",
     technique="go2v translation of getSubKeyMap / hasSubKeys / Map.PathForKeyShortest proved equal to the model + Coq theorems over the executable model + model/implementation correspondence by vm_compute + Go-side oracle")
 PROPS["C08"]["gen"] = ["setters", "pure"]
+_C09_GEN = True
 PROPS["C09"] = _kv("C09", "LeafNodes lists every terminal value once, with a path that resolves to it", {"quick": 4000, "thorough": 60000},
     "Theorems over the model of getLeafNodes (all Maps, keys, option combinations); correspondence of LeafNodes/LeafPaths/LeafValues under all option combinations; oracle resolves every leaf path through ValuesForPath on the implementation.",
     "Trusted: Coq kernel; model validated by correspondence; strconv.Itoa transcribed.")
+PROPS["C09"]["gen"] = ["setters", "pure"]
 PROPS["C10"] = _kv("C10", "UpdateValuesForPath changes only the addressed values and reports how many", {"quick": 4000, "thorough": 60000},
     "Theorems over the model of updateValuesForKeyPath/updateValue (functional rebuild of the in-place update); correspondence of the resulting Map and count; oracle compares with the addressed-positions specification.",
     "Trusted: Coq kernel; model validated by correspondence; two recorded findings (create-on-absent, list node before the last key).")
@@ -55,7 +57,7 @@ XML_ASSUME = [
     "strconv.ParseFloat is an oracle (per-case table filled by the real function); float64 values are carried as their %v text",
     "package-level options are set through the exported setters before each implementation call and restored afterwards",
 ]
-PROPS["C01"] = {"title": "XML decodes to the Map the documented conventions prescribe, under all options", "run_modules": ["RunXml"],
+PROPS["C01"] = {"title": "XML decodes to the Map the documented conventions prescribe, under all options", "run_modules": ["RunXml"], "gen": ["setters", "pure"],
     "n": {"quick": 2500, "thorough": 40000}, "level": "proof",
     "technique": "Coq model of xmlToMapParser/cast over token lists + declarative conventions conv (Spec/Conv.v) + correspondence by vm_compute + Go-side oracle transcribing the conventions",
     "design_ref": "DESIGN.md section 6, C01", "assumptions": XML_ASSUME,
